@@ -188,7 +188,9 @@ TEXTS.update({
     "C12": {
         "text": "Lean theorems on the lifecycle cascade from EVERY state: the library's own steps can always be completed to a terminal state within pending(s) <= 2 x components "
                 "steps, every run of them is that short, after a root Close the terminal state has every component done, ShutdownInitiated/Completed are enabled at most once "
-                "per component, and a subscription attached while racing with shutdown is a child of its publisher (so it is shut down with it); on the request/response "
+                "per component, and a subscription attached while racing with shutdown is a child of its publisher (so it is shut down with it); the executable tree model the engine "
+                "compares the implementation with marks closed exactly the components that are done in the cascade's terminal state, for every schedule "
+                "(sys_close_is_cascade_terminal); on the request/response "
                 "model of the API calls (select on ShuttingDown vs request channel, buffered result channel) no call is ever stuck — a blocked caller can always take one of its two "
                 "branches, an accepted request always finds its result, a stopped component refuses every later call — and each call needs at most two steps of its own. "
                 "Goroutine exit and (virtual) time bounds are exhibited on the real code: shutdown-point enumeration with racing API calls under synctest.",
